@@ -62,7 +62,8 @@ Chain(S, ls, k, cur, uid) ==
   IF ls = <<>> THEN [st |-> "ok", S |-> S, h |-> cur]
   ELSE LET st == LayerStatus(S, Head(ls), cur) IN
        IF st # "ok" THEN [st |-> st, S |-> S, h |-> cur]
-       ELSE Chain(Drop(LayerForward(S, Head(ls), cur, -10 - k, uid), cur), Tail(ls), k + 1, -10 - k, uid)
+       ELSE Strict(Drop(LayerForward(S, Head(ls), cur, -10 - k, uid), cur),
+                   LAMBDA S2 : Chain(S2, Tail(ls), k + 1, -10 - k, uid))
 
 \* the model retains a clone of its output (hidden handle OutH), replacing the previous one
 ModelForward(S, x, res, uid) ==
